@@ -51,6 +51,7 @@ func envelope(x *mon.Ctx) {
 		x.HarnessError("%v", err)
 	}
 	cv := enc.SM2
+	validateShapes(x, cv)
 	innerKinds := []string{"random", "d=1", "d=2", "d=n-2", "d<2^64", "random", "d=2^255+r", "random"}
 	reps := x.Scale(16, 200)
 	sweepEvery := x.Scale(4, 5)
@@ -62,135 +63,22 @@ func envelope(x *mon.Ctx) {
 			continue
 		}
 		c.Class("envelope/inner:%s/sweep=%v", ik, sweep)
-		rcpt := newKey(cv, pickKey(c, cv, "random"))
-		inner := newKey(cv, pickKey(c, cv, ik))
-		sym := c.R.Bytes(16)
-		k := randScalar(c.R, cv.N())
-		src := script(c, sym, b32(k))
-		var env []byte
-		var err error
-		if !c.Call("MarshalEnvelopedPrivateKey", func() { env, err = sm2.MarshalEnvelopedPrivateKey(src, &rcpt.priv.PublicKey, inner.priv) }) {
-			c.End()
+		envCase(c, cv, ik, sweep, nil)
+		c.End()
+	}
+	// ephemeral scalars whose C1 has coordinates with leading zero octets (short DER INTEGERs inside the SM2Cipher)
+	for i, sh := range shapesOf("sm2") {
+		if !x.Thorough() && sh.rank > 1 {
 			continue
 		}
-		if err != nil {
-			c.Fail("reject", "MarshalEnvelopedPrivateKey failed: %v", err)
-			c.End()
+		ik := innerKinds[i%len(innerKinds)]
+		c := x.Begin("envelope inner-key=%s ephemeral scalar k=%d with C1 shape %s", ik, sh.k, sh.label())
+		if c == nil {
 			continue
 		}
-		// round trip
-		got, perr, ok := parseEnv(c, "library envelope", rcpt, env)
-		if ok {
-			switch {
-			case perr != nil:
-				c.Detail("envelope", env)
-				c.Fail("reject", "ParseEnvelopedPrivateKey refused the library's own envelope: %v", perr)
-			case !sameKey(got, inner):
-				c.Fail("mismatch", "ParseEnvelopedPrivateKey returned another key than the enveloped one")
-			default:
-				c.Event("envelope_roundtrips", 1)
-			}
-		}
-		// the same envelope built by the reference (same symmetric key, same k)
-		ct, rerr := enc.Encrypt(cv, k, rcpt.px, rcpt.py, sym)
-		if rerr != nil {
-			c.Inconclusive("reference encryption not applicable: %v", rerr)
-			c.End()
-			continue
-		}
-		encD := ecbEncrypt(sym, b32(inner.d))
-		renv := refEnvelope(ct.ASN1(), inner, encD)
-		if bytes.Equal(renv, env) {
-			c.Event("envelope_equals_reference", 1)
-		} else {
-			c.Event("envelope_differs_from_reference", 1) // recorded, not judged: the property is the round trip
-		}
-		got, perr, ok = parseEnv(c, "reference envelope", rcpt, renv)
-		if ok {
-			switch {
-			case perr != nil:
-				c.Detail("envelope", renv)
-				c.Fail("reject", "ParseEnvelopedPrivateKey refused an envelope built with the reference primitives: %v", perr)
-			case !sameKey(got, inner):
-				c.Fail("mismatch", "ParseEnvelopedPrivateKey returned another key than the one in the reference envelope")
-			default:
-				c.Event("reference_envelopes_opened", 1)
-			}
-		}
-		// wrong recipient
-		if w := neighbour(rcpt); w != nil {
-			if g, e, ok := parseEnv(c, "wrong recipient", w, env); ok && e == nil {
-				c.Fail("accept", "ParseEnvelopedPrivateKey succeeded with the wrong recipient key (returned enveloped key: %v)", sameKey(g, inner))
-			} else if ok {
-				c.Event("wrong_recipient_refused", 1)
-			}
-		}
-		// malformed but well-structured envelopes: sizes taken from hostile bytes must not crash the parser
-		for _, v := range []struct {
-			name string
-			env  []byte
-		}{
-			{"encrypted private key empty", refEnvelope(ct.ASN1(), inner, nil)},
-			{"encrypted private key 16 bytes", refEnvelope(ct.ASN1(), inner, encD[:16])},
-			{"encrypted private key 48 bytes (padded ECB)", refEnvelope(ct.ASN1(), inner, ecbEncrypt(sym, append(b32(inner.d), bytes.Repeat([]byte{16}, 16)...)))},
-			{"encrypted private key 31 bytes", refEnvelope(ct.ASN1(), inner, encD[:31])},
-			{"encrypted private key 33 bytes", refEnvelope(ct.ASN1(), inner, append(append([]byte{}, encD...), 0))},
-			{"encrypted private key 1 byte", refEnvelope(ct.ASN1(), inner, encD[:1])},
-			{"symmetric key 15 bytes", envWithSym(cv, rcpt, inner, k, sym[:15], encD)},
-			{"symmetric key 17 bytes", envWithSym(cv, rcpt, inner, k, append(append([]byte{}, sym...), 1), encD)},
-			{"symmetric key 32 bytes", envWithSym(cv, rcpt, inner, k, append(append([]byte{}, sym...), sym...), encD)},
-			{"symmetric key 1 byte", envWithSym(cv, rcpt, inner, k, sym[:1], encD)},
-			{"public key of another pair", refEnvelope(ct.ASN1(), rcpt, encD)},
-			{"public key compressed", tl(0x30, cat(algSM4ECB, ct.ASN1(), tl(3, cat([]byte{0, 2 + byte(inner.py.Bit(0))}, b32(inner.px))), tl(3, append([]byte{0}, encD...))))},
-			{"public key empty", tl(0x30, cat(algSM4ECB, ct.ASN1(), tl(3, []byte{0}), tl(3, append([]byte{0}, encD...))))},
-			{"bit strings without the unused-bits octet", tl(0x30, cat(algSM4ECB, ct.ASN1(), tl(3, nil), tl(3, nil)))},
-			{"plain (non ASN.1) SM2 ciphertext inside", tl(0x30, cat(algSM4ECB, ct.Plain(enc.C1C3C2, enc.Uncompressed), tl(3, append([]byte{0}, b32(inner.px)...)), tl(3, append([]byte{0}, encD...))))},
-		} {
-			if v.env == nil {
-				continue
-			}
-			c.Event("malformed_envelopes", 1)
-			g, e, ok := parseEnv(c, v.name, rcpt, v.env)
-			if ok && e == nil && !sameKey(g, inner) {
-				c.Detail("envelope", v.env)
-				c.Fail("accept", "%s: ParseEnvelopedPrivateKey returned a key that is not the enveloped one", v.name)
-			} else if ok && e == nil {
-				c.Event("malformed_envelope_gave_right_key", 1)
-			} else if ok {
-				c.Event("malformed_envelope_refused", 1)
-			}
-		}
-		if sweep {
-			// every single-byte substitution and truncation: an error or the right key, never a panic
-			try := func(what string, mut []byte) {
-				if bytes.Equal(mut, env) {
-					return
-				}
-				c.Event("envelope_mutants", 1)
-				g, e, ok := parseEnv(c, what, rcpt, mut)
-				switch {
-				case !ok:
-				case e != nil:
-					c.Event("envelope_mutant_refused", 1)
-				case sameKey(g, inner):
-					c.Event("envelope_mutant_gave_right_key", 1)
-				default:
-					c.Detail("envelope", mut)
-					c.Fail("accept", "%s: ParseEnvelopedPrivateKey returned a key that is not the enveloped one", what)
-				}
-			}
-			for i := range env {
-				for _, v := range []byte{env[i] ^ 1, env[i] ^ 0x80, 0, 0xff} {
-					mut := append([]byte{}, env...)
-					mut[i] = v
-					try(fmt.Sprintf("byte %d of %d set to %02x", i, len(env), v), mut)
-				}
-			}
-			for l := 0; l < len(env); l++ {
-				try(fmt.Sprintf("truncated to %d of %d bytes", l, len(env)), env[:l])
-			}
-			try("extended by 00", append(append([]byte{}, env...), 0))
-		}
+		c.Class("envelope/inner:%s/C1-shape:%s", ik, sh.label())
+		envCase(c, cv, ik, false, big.NewInt(sh.k))
+		c.Event("envelope_with_shaped_C1", 1)
 		c.End()
 	}
 	// tiny inputs
@@ -209,6 +97,140 @@ func envelope(x *mon.Ctx) {
 			}
 		}
 		c.End()
+	}
+}
+
+// envCase is one enveloped-key case: round trip of the library's envelope, the same envelope built
+// with the reference primitives, wrong recipient, malformed but well-structured envelopes and (sweep)
+// every single-byte mutant. k is the ephemeral scalar offered to MarshalEnvelopedPrivateKey (nil: random).
+func envCase(c *mon.Case, cv enc.Curve, ik string, sweep bool, k *big.Int) {
+	rcpt := newKey(cv, pickKey(c, cv, "random"))
+	inner := newKey(cv, pickKey(c, cv, ik))
+	sym := c.R.Bytes(16)
+	if k == nil {
+		k = randScalar(c.R, cv.N())
+	}
+	src := script(c, sym, b32(k))
+	var env []byte
+	var err error
+	if !c.Call("MarshalEnvelopedPrivateKey", func() { env, err = sm2.MarshalEnvelopedPrivateKey(src, &rcpt.priv.PublicKey, inner.priv) }) {
+		return
+	}
+	if err != nil {
+		c.Fail("reject", "MarshalEnvelopedPrivateKey failed: %v", err)
+		return
+	}
+	// round trip
+	got, perr, ok := parseEnv(c, "library envelope", rcpt, env)
+	if ok {
+		switch {
+		case perr != nil:
+			c.Detail("envelope", env)
+			c.Fail("reject", "ParseEnvelopedPrivateKey refused the library's own envelope: %v", perr)
+		case !sameKey(got, inner):
+			c.Fail("mismatch", "ParseEnvelopedPrivateKey returned another key than the enveloped one")
+		default:
+			c.Event("envelope_roundtrips", 1)
+		}
+	}
+	// the same envelope built by the reference (same symmetric key, same k)
+	ct, rerr := enc.Encrypt(cv, k, rcpt.px, rcpt.py, sym)
+	if rerr != nil {
+		c.Inconclusive("reference encryption not applicable: %v", rerr)
+		return
+	}
+	encD := ecbEncrypt(sym, b32(inner.d))
+	renv := refEnvelope(ct.ASN1(), inner, encD)
+	if bytes.Equal(renv, env) {
+		c.Event("envelope_equals_reference", 1)
+	} else {
+		c.Event("envelope_differs_from_reference", 1) // recorded, not judged: the property is the round trip
+	}
+	got, perr, ok = parseEnv(c, "reference envelope", rcpt, renv)
+	if ok {
+		switch {
+		case perr != nil:
+			c.Detail("envelope", renv)
+			c.Fail("reject", "ParseEnvelopedPrivateKey refused an envelope built with the reference primitives: %v", perr)
+		case !sameKey(got, inner):
+			c.Fail("mismatch", "ParseEnvelopedPrivateKey returned another key than the one in the reference envelope")
+		default:
+			c.Event("reference_envelopes_opened", 1)
+		}
+	}
+	// wrong recipient
+	if w := neighbour(rcpt); w != nil {
+		if g, e, ok := parseEnv(c, "wrong recipient", w, env); ok && e == nil {
+			c.Fail("accept", "ParseEnvelopedPrivateKey succeeded with the wrong recipient key (returned enveloped key: %v)", sameKey(g, inner))
+		} else if ok {
+			c.Event("wrong_recipient_refused", 1)
+		}
+	}
+	// malformed but well-structured envelopes: sizes taken from hostile bytes must not crash the parser
+	for _, v := range []struct {
+		name string
+		env  []byte
+	}{
+		{"encrypted private key empty", refEnvelope(ct.ASN1(), inner, nil)},
+		{"encrypted private key 16 bytes", refEnvelope(ct.ASN1(), inner, encD[:16])},
+		{"encrypted private key 48 bytes (padded ECB)", refEnvelope(ct.ASN1(), inner, ecbEncrypt(sym, append(b32(inner.d), bytes.Repeat([]byte{16}, 16)...)))},
+		{"encrypted private key 31 bytes", refEnvelope(ct.ASN1(), inner, encD[:31])},
+		{"encrypted private key 33 bytes", refEnvelope(ct.ASN1(), inner, append(append([]byte{}, encD...), 0))},
+		{"encrypted private key 1 byte", refEnvelope(ct.ASN1(), inner, encD[:1])},
+		{"symmetric key 15 bytes", envWithSym(cv, rcpt, inner, k, sym[:15], encD)},
+		{"symmetric key 17 bytes", envWithSym(cv, rcpt, inner, k, append(append([]byte{}, sym...), 1), encD)},
+		{"symmetric key 32 bytes", envWithSym(cv, rcpt, inner, k, append(append([]byte{}, sym...), sym...), encD)},
+		{"symmetric key 1 byte", envWithSym(cv, rcpt, inner, k, sym[:1], encD)},
+		{"public key of another pair", refEnvelope(ct.ASN1(), rcpt, encD)},
+		{"public key compressed", tl(0x30, cat(algSM4ECB, ct.ASN1(), tl(3, cat([]byte{0, 2 + byte(inner.py.Bit(0))}, b32(inner.px))), tl(3, append([]byte{0}, encD...))))},
+		{"public key empty", tl(0x30, cat(algSM4ECB, ct.ASN1(), tl(3, []byte{0}), tl(3, append([]byte{0}, encD...))))},
+		{"bit strings without the unused-bits octet", tl(0x30, cat(algSM4ECB, ct.ASN1(), tl(3, nil), tl(3, nil)))},
+		{"plain (non ASN.1) SM2 ciphertext inside", tl(0x30, cat(algSM4ECB, ct.Plain(enc.C1C3C2, enc.Uncompressed), tl(3, append([]byte{0}, b32(inner.px)...)), tl(3, append([]byte{0}, encD...))))},
+	} {
+		if v.env == nil {
+			continue
+		}
+		c.Event("malformed_envelopes", 1)
+		g, e, ok := parseEnv(c, v.name, rcpt, v.env)
+		if ok && e == nil && !sameKey(g, inner) {
+			c.Detail("envelope", v.env)
+			c.Fail("accept", "%s: ParseEnvelopedPrivateKey returned a key that is not the enveloped one", v.name)
+		} else if ok && e == nil {
+			c.Event("malformed_envelope_gave_right_key", 1)
+		} else if ok {
+			c.Event("malformed_envelope_refused", 1)
+		}
+	}
+	if sweep {
+		// every single-byte substitution and truncation: an error or the right key, never a panic
+		try := func(what string, mut []byte) {
+			if bytes.Equal(mut, env) {
+				return
+			}
+			c.Event("envelope_mutants", 1)
+			g, e, ok := parseEnv(c, what, rcpt, mut)
+			switch {
+			case !ok:
+			case e != nil:
+				c.Event("envelope_mutant_refused", 1)
+			case sameKey(g, inner):
+				c.Event("envelope_mutant_gave_right_key", 1)
+			default:
+				c.Detail("envelope", mut)
+				c.Fail("accept", "%s: ParseEnvelopedPrivateKey returned a key that is not the enveloped one", what)
+			}
+		}
+		for i := range env {
+			for _, v := range []byte{env[i] ^ 1, env[i] ^ 0x80, 0, 0xff} {
+				mut := append([]byte{}, env...)
+				mut[i] = v
+				try(fmt.Sprintf("byte %d of %d set to %02x", i, len(env), v), mut)
+			}
+		}
+		for l := 0; l < len(env); l++ {
+			try(fmt.Sprintf("truncated to %d of %d bytes", l, len(env)), env[:l])
+		}
+		try("extended by 00", append(append([]byte{}, env...), 0))
 	}
 }
 
